@@ -258,15 +258,18 @@ def tasks(tier):
     t = [('contracts.c04', 'task_restrict', dict(sc=s)) for s in range(7)]
     t.append(('contracts.c04', 'task_restrict_weights', {}))
     t += [('contracts.c04', 'task_restrict_model', dict(sc=s)) for s in range(7)]
-    from . import c04_control
+    from . import c04_control, c04_prolong
     t += c04_control.tasks(tier)
+    t += c04_prolong.tasks(tier)
     return t
 
 
 LEVEL = ('Deductive proof over the real source: core.restrict equals the transpose of the spec prolongation on every interior coarse '
          'edge for all seven patterns (symbolic grids, arbitrary stretching), given the contract of restrict_weights which is proved '
          'against the linear hat functions; hat weights non-negative and summing to one; _restrict_model_parameters sums exactly the '
-         'children (slice algebra) for all seven patterns; restriction()/_get_restriction_weights wiring (control executor).')
+         'children (slice algebra) for all seven patterns; restriction()/_get_restriction_weights wiring (control executor); prolongation() adds the '
+         'interpolated transverse slice of coarse index I to the interior of fine index 2I, 2I+1 (or I) of the same component and writes nothing else '
+         '(generic iteration of each loop, all seven patterns), given the contract RGP of the interpolator.')
 ASSUMPTIONS = ['WF(grid): cell_centers are midpoints of consecutive nodes, h the node differences, coarse nodes every second fine node (established by meshes.BaseMesh and np.diff(nodes[::2]); checked concretely, not deductively)',
                'RegularGridProlongator implements bilinear hat interpolation (contract RGP; bounded concrete check only)',
                'lemma: coarse nodes = origin + cumsum(diff(nodes[::r])) = nodes[::r] (telescoping sum, trusted)']
